@@ -10,12 +10,16 @@ WT=/tmp/confirm/$NAME
 rm -rf $WT; mkdir -p /tmp/confirm
 git -C /repo worktree add -q --detach $WT HEAD || exit 3
 cd $WT
+# demos may locate the sources relative to themselves (<worktree>/seed/demo.py): run a copy placed inside the scratch worktree
+mkdir -p $WT/seed && cp $SEED/demo.py $SEED/*.py $WT/seed/ 2>/dev/null
+sed -i "s#/tmp/wt/[A-Za-z0-9]*#$WT#g" $WT/seed/*.py
+SEEDRUN=$WT/seed
 echo "== demo on unchanged code"
-( cd $SEED && PYTHONPATH=$WT/src NUMBA_DISABLE_JIT=1 timeout 1800 /venv/bin/python demo.py > /tmp/confirm/$NAME.demo0.log 2>&1 ); R0=$?
+( cd $SEEDRUN && PYTHONPATH=$WT/src NUMBA_DISABLE_JIT=1 timeout 1800 /venv/bin/python demo.py > /tmp/confirm/$NAME.demo0.log 2>&1 ); R0=$?
 echo "   exit $R0"
 git -C $WT apply $SEED/patch.diff || { echo "patch does not apply"; git -C /repo worktree remove --force $WT; exit 3; }
 echo "== demo with the change"
-( cd $SEED && PYTHONPATH=$WT/src NUMBA_DISABLE_JIT=1 timeout 1800 /venv/bin/python demo.py > /tmp/confirm/$NAME.demo1.log 2>&1 ); R1=$?
+( cd $SEEDRUN && PYTHONPATH=$WT/src NUMBA_DISABLE_JIT=1 timeout 1800 /venv/bin/python demo.py > /tmp/confirm/$NAME.demo1.log 2>&1 ); R1=$?
 echo "   exit $R1"
 echo "== baseline suite with the change"
 SAVE=$(mktemp -d /tmp/hypdb.XXXXXX)
